@@ -168,8 +168,9 @@ pub enum Val {
     Dbg(String),
 }
 
-/// deviations of the implementation from the documented matcher semantics that the monitor
-/// can try as an *explanation* of a divergence (each is a narrow signature, see c11.rs)
+/// alternative matcher semantics the monitor can try as an *explanation* of a divergence:
+/// `str_raw` is a reading the property leaves open (accepted), `dbg_prefix` a repaired defect
+/// whose signature stays armed (see c11.rs)
 #[derive(Clone, Copy, Debug, Default, PartialEq, Eq)]
 pub struct Quirks {
     /// regex mode: a `&str` value is compared raw instead of through its `Debug` output
